@@ -7,7 +7,7 @@ for N in "$@"; do
   S=/var/tmp/seed_out/$N
   [ -f $S/patch.diff ] || { echo "$N: no patch"; continue; }
   C=$(CS_SLOT=${CS_SLOT:-0} tools/confirm_seed.sh $S 2>&1 | grep '^CONFIRM' | head -1)
-  M=$(tools/mutant_run.sh $S/patch.diff $P 2>&1 | grep '^MUTANT' | head -1)
+  M=$(MR_SLOT=b${CS_SLOT:-0} tools/mutant_run.sh $S/patch.diff $P 2>&1 | grep '^MUTANT' | head -1)
   echo "$N | $C | $M" | tee .build/seed_results/$N.txt
   case "$C" in *"clean-demo rc=0"*"tests rc=0"*"patched-demo rc=0"*) ;; *"clean-demo rc=0"*"tests rc=0"*) python3 tools/keep_seed.py $S $P "$M" "$C" ;; esac
 done
